@@ -215,6 +215,7 @@ class FSym(LSym):
         p = fnorm(p)
         if p.is_zero(): return 1
         if p.is_const(): return 0
+        if known_nonzero(p, self.nonzero): return 0
         k1 = p.key(); k2 = fnorm(-p).key()
         key = ("eqz", min(k1, k2))
         v = self.oracle.decide(key, "%s(%r)" % (why, p))
@@ -382,6 +383,36 @@ def reduce_mod(p, rels, order, max_steps=20000):
         if not done:
             rem = rem + Poly({lm: c}); p = fnorm(p - Poly({lm: c}))
     return fnorm(rem)
+
+def exact_div(p, q):
+    """p / q if q divides p exactly (coefficients mod P), else None"""
+    p = fnorm(p); q = fnorm(q)
+    if q.is_zero(): return None
+    vs = sorted(p.vars() | q.vars())
+    order = {v: i + 1 for i, v in enumerate(vs)}
+    lq = lead(q, order); inv = pow(q.t[lq], P - 2, P)
+    quo = ZERO; steps = 0
+    while not p.is_zero():
+        steps += 1
+        if steps > 5000: return None
+        lm = lead(p, order)
+        d = mono_div(lm, lq)
+        if d is None: return None
+        f = (p.t[lm] * inv) % P
+        t = Poly({d: f})
+        quo = quo + t; p = fnorm(p - t * q)
+    return fnorm(quo)
+
+def known_nonzero(p, nonzero, depth=0):
+    """p is a product of polynomials assumed non-zero (GF(p) is an integral domain)"""
+    p = fnorm(p)
+    if p.is_zero(): return False
+    if p.is_const(): return True
+    if depth > 12: return False
+    for q in nonzero:
+        d = exact_div(p, q)
+        if d is not None and known_nonzero(d, nonzero, depth + 1): return True
+    return False
 
 def is_zero_mod(p, rels, prefer=()):
     """True if p reduces to 0 modulo rels under one of a few variable orders"""
